@@ -50,7 +50,13 @@ def ec_weak_priv_spec(r, c, k_first=None):
   m, desc = mults[r.randrange(len(mults))]
   u = r.random()
   vmax = min(2**32 - 1, (int(c.n) - 1) // m)
-  if k_first and u < 0.45:
+  if k_first and u < 0.15:
+    # the top of the 32-bit range: the last giant step of the documented
+    # algorithm (whether it is needed depends on the list length)
+    ts, t = lib_table_params(c, k_first)
+    v = 2**32 - 1 - r.randrange(0, max(2, ts // 2))
+    edge = "j=top,ts=%d" % ts
+  elif k_first and u < 0.50:
     ts, t = lib_table_params(c, k_first)
     jmax = (2**32) // t
     j = r.choice([0, 1, 2, jmax - 1, jmax, jmax + 1, r.randint(0, jmax)])
@@ -283,6 +289,7 @@ def gen_ec(r, tier, f, focus):
     return b
 
   first_exp_done = False
+  edge_alone_done = [False]
 
   def add_check():
     nonlocal budget, first_exp_done
@@ -296,6 +303,17 @@ def gen_ec(r, tier, f, focus):
       else:
         budget -= units
         first_exp_done = True
+    if expensive and first_exp_done and budget >= 1 and not edge_alone_done[0]:
+      # an edge-planted key once more, alone: another list length, hence other
+      # table and giant-step sizes; the verdict must be the same
+      edges = [j for j in range(n) if pool[j]["fam"].startswith("weak_priv")
+               and pool[j]["truth"].get("edge", "").startswith("j=")]
+      if edges and r.random() < 0.6:
+        edge_alone_done[0] = True
+        budget -= 1
+        ops.append({"op": "check", "batch": [r.choice(edges)], "oracle": [],
+                    "check": {"name": "CheckWeakECPrivateKey",
+                              "how": "registry", "via": "all"}})
     if expensive:
       if r.random() < 0.55:
         op = {"op": "check_all", "batch": batch,
